@@ -561,7 +561,23 @@ func (b *Builder) of1(v ssa.Value, at ssa.Instruction, depth int) *Term {
 	case *ssa.ChangeInterface:
 		return b.of(x.X, at, depth+1)
 	case *ssa.Convert:
-		return b.mk("conv", typeName(x.Type()), v, b.of(x.X, at, depth+1))
+		inner := b.of(x.X, at, depth+1)
+		if tn := typeName(x.Type()); (tn == "[]byte" || tn == "[]uint8") && inner.Op == "bin" && inner.Name == "+" {
+			// []byte(s1 + s2 + …) is the concatenation of the parts, as is append(append(empty, s1...), s2...)
+			var parts []*Term
+			var flat func(t *Term)
+			flat = func(t *Term) {
+				if t.Op == "bin" && t.Name == "+" && len(t.Args) == 2 {
+					flat(t.Args[0])
+					flat(t.Args[1])
+					return
+				}
+				parts = append(parts, t)
+			}
+			flat(inner)
+			return b.mk("concat", "", v, parts...)
+		}
+		return b.mk("conv", typeName(x.Type()), v, inner)
 	case *ssa.SliceToArrayPointer:
 		return b.mk("conv", typeName(x.Type()), v, b.of(x.X, at, depth+1))
 	case *ssa.MultiConvert:
@@ -801,6 +817,15 @@ func (b *Builder) callTerm(v ssa.Value, c *ssa.CallCommon, depth int) *Term {
 	if name == "dynamic" {
 		args = append([]*Term{b.of(c.Value, at, depth+1)}, args...)
 	}
+	if name == "builtin.append" && len(args) == 2 {
+		base := args[0]
+		if base.Op == "concat" {
+			return &Term{Op: "concat", V: v, Args: append(append([]*Term{}, base.Args...), args[1])}
+		}
+		if isEmptySlice(base) && typeName(v.Type()) == "[]byte" {
+			return &Term{Op: "concat", V: v, Args: []*Term{args[1]}}
+		}
+	}
 	return canonCall(&Term{Op: "call", Name: name, V: v, Args: args})
 }
 
@@ -825,6 +850,22 @@ func canonCall(t *Term) *Term {
 		// Sum(b) appends to b: with an empty b the result is the digest, as with nil
 		if a := arg(1); a != nil && isEmptySlice(a) {
 			return &Term{Op: "call", Name: t.Name, V: t.V, Args: []*Term{t.Args[0], {Op: "nil"}}}
+		}
+	case "(*math/big.Int).FillBytes":
+		// x.FillBytes(make([]byte, n)) is x.Bytes() left-padded with zeros to n bytes (it panics when x does not fit)
+		if buf := arg(1); buf != nil {
+			bs := buf
+			if bs.Op == "obj" && len(bs.Args) > 0 {
+				bs = bs.Args[0]
+			}
+			if bs.Op == "makeslice" && len(bs.Args) == 2 && bs.Args[0].String() == bs.Args[1].String() {
+				return &Term{Op: "call", Name: "leftpad", V: t.V, Args: []*Term{{Op: "call", Name: "(*math/big.Int).Bytes", Args: []*Term{t.Args[0]}}, bs.Args[0]}}
+			}
+		}
+	case "(*math/big.Int).SetUint64":
+		// SetUint64(c) and SetInt64(c) set the same value for a non-negative constant c
+		if c, ok := isConstInt(arg(1)); ok && c.Sign() >= 0 && c.IsInt64() {
+			return &Term{Op: "call", Name: "(*math/big.Int).SetInt64", V: t.V, Args: t.Args}
 		}
 	case "strconv.FormatInt":
 		if ten, ok := isConstInt(arg(1)); ok && ten.Cmp(big.NewInt(10)) == 0 {
@@ -1116,7 +1157,7 @@ func (b *Builder) selfCall(ci ssa.CallInstruction, root ssa.Value, depth int) *T
 	for _, a := range c.Args {
 		args = append(args, arg(a))
 	}
-	return &Term{Op: "call", Name: CalleeName(c), Args: args, V: ci.Value()}
+	return canonCall(&Term{Op: "call", Name: CalleeName(c), Args: args, V: ci.Value()})
 }
 
 // InstrDominates reports whether a is executed before b on every path to b.
